@@ -8,6 +8,7 @@ Open Scope R_scope.
 Theorem run_from_init_refrac_bounds : forall (c : cls) (p : params RN),
   ctor_ok RN c p = true ->
   forall (n b : nat) (ops : list (op RN)),
+  Forall (op_bounded p) ops ->
   Forall (fun r : option (list (list bool)) * nstate RN => bounded p (cols RN (snd r)))
     (run RN c p (init RN c p n b) ops).
 Proof. exact (@Inferno.C03.RunProofs.run_from_init_refrac_bounds). Qed.
